@@ -15,8 +15,11 @@ class MatchControlConstructionTokenTranslator(AbstractTranslator):
         else:
             lookup_array = ExpressionTokenTranslator.translate(token.lookup_array, excel, context)
 
-        lookup_value, match_type \
-            = ExpressionTokenTranslator.translate(token.lookup_value, excel, context), \
-              ExpressionTokenTranslator.translate(token.match_type, excel, context)
+        lookup_value = ExpressionTokenTranslator.translate(token.lookup_value, excel, context)
+
+        if token.match_type is None:
+            return context.set_sub_cell(token.in_cell, f'self._match({lookup_value}, {lookup_array})')
+
+        match_type = ExpressionTokenTranslator.translate(token.match_type, excel, context)
 
         return context.set_sub_cell(token.in_cell, f'self._match({lookup_value}, {lookup_array}, {match_type})')
